@@ -3,14 +3,18 @@ import math
 
 from harness import dtwgen
 
-COQ_FILES = ["theories/BandTie.v", "theories/Prune.v", "props/C03.v"]
+COQ_FILES = ["theories/BandTie.v", "theories/Prune.v", "theories/PyDist.v", "theories/PyDistProofs.v",
+             "theories/PyDistPrune.v", "props/C03.v"]
 THEOREMS = [("DVProps.C03", "C03_pruning_sound_partial"), ("DVProps.C03", "C03_max_dist_result_partial"),
-            ("DVProps.C03", "C03_euclidean_bound_keeps_value")]
+            ("DVProps.C03", "C03_euclidean_bound_keeps_value"), ("DVProps.C03", "C03_pruned_code_model_exact")]
 TRUSTED_BASE = [
     "Coq 8.16.1 kernel (no native_compute)",
-    "partial: the theorem covers every pruning strategy that skips only cells whose optimum exceeds the bound; that "
-    "the sc/ec/smaller_found bookkeeping of dtw.distance / warping_paths / dtw_distance* is such a strategy is tied "
-    "by correspondence (harness/props/C03.py), not proved",
+    "the sc/ec/ec_next/smaller_found/break bookkeeping of dtw.distance is modelled as written (PyDist.distp_model, "
+    "rolling buffer, regenerated index arithmetic) and PROVED exact for every bound when there is no begin relaxation "
+    "(C03_pruned_code_model_exact); the hand model is tied to dtw.distance and dtw_distance (C) by correspondence "
+    "(oracle command pydistp) on ALL settings, including begin psi where model and code are unsound alike (F06)",
+    "partial: warping_paths / the C kernels' bookkeeping: covered by the abstract theorem (any strategy skipping only "
+    "cells above the bound) + correspondence",
     "extraction + driver.ml",
 ]
 ASSUMPTIONS = ["exact arithmetic; integer thresholds different from the true distance (the rounding-width "
@@ -98,6 +102,20 @@ def expected(cases, oracle):
             vals.append(None if a.startswith("ERR") else (math.inf if a == "inf" else int(a)))
             eds.append(None if e.startswith("ERR") else int(e))
         out.append({"internal": vals, "ed": eds})
+    # the as-written PrunedDTW model (proved exact without begin psi) for the single-pair distance routines
+    idx, lines = [], []
+    for k, c in enumerate(cases):
+        if c["site"] not in ("py.distance", "c.distance") or out[k]["ed"][0] is None:
+            continue
+        s = c["settings"]
+        if c["mode"] == "max_dist":
+            b = s["max_dist"] ** 2 if dtwgen.inner_code(s["inner_dist"]) == 0 else s["max_dist"]
+        else:
+            b = out[k]["ed"][0]
+        idx.append(k)
+        lines.append(dtwgen.oracle_line("pydistp %d" % b, c))
+    for k, a in zip(idx, oracle.query(lines)):
+        out[k]["as_written"] = None if a.startswith("ERR") else (math.inf if a == "inf" else int(a))
     return out
 
 
@@ -136,6 +154,13 @@ def judge(case, got, exp):
     idn = s["inner_dist"]
     if len(g) != len(exp["internal"]):
         return {"kind": "wrong-length", "got": g}
+    out = []
+    if exp.get("as_written", 0) is None:
+        return {"kind": "oracle-error"}
+    if "as_written" in exp and float(g[0]) != dtwgen.result_transform(exp["as_written"], idn):
+        # tie of the hand model PyDist.distp_model to the code (judged on every setting, begin psi included)
+        out.append({"kind": "as-written-pruned-model-differs-from-code", "got": float(g[0]),
+                    "model": dtwgen.result_transform(exp["as_written"], idn)})
     for k, (gv, v) in enumerate(zip(g, exp["internal"])):
         gv = float(gv)
         true_d = dtwgen.result_transform(v, idn)
@@ -148,9 +173,10 @@ def judge(case, got, exp):
             want = true_d
         if gv != want:
             kind = "spurious-inf" if gv == math.inf else ("missed-inf" if want == math.inf else "different-finite-value")
-            return {"kind": kind, "pair": k, "got": gv, "expected": want, "true_distance": true_d,
-                    "dtw_equals_ed": exp["ed"][k] == v}
-    return None
+            out.append({"kind": kind, "pair": k, "got": gv, "expected": want, "true_distance": true_d,
+                        "dtw_equals_ed": exp["ed"][k] == v})
+            break
+    return out or None
 
 
 def nontrivial(case, exp):
